@@ -112,7 +112,7 @@ PROPS = {
     'C16': {
         'correspondence': {'kind': 'pipe', 'profiles': [prof('pipedrop', (40, 5), (400, 10)), prof('progs:pipe_extra.progs', (0, 4), (0, 30)), prof('progs:pipe_yield.progs', (0, 8), (0, 60)), prof('progs:pipe_lastowner.progs', (0, 8), (0, 60))]},
         'coq': ['theories/Pipe/PropsC16.vo', 'theories/Inst/C16_now.vo', 'theories/Inst/Fut_now.vo'],
-        'profiles': [prof('pipedrop', (80, 25), (1500, 80), extra=['--max-steps', '30000']), prof('progs:pipe_lastowner.progs', (0, 100), (0, 2000), extra=['--max-steps', '30000'])],
+        'profiles': [prof('pipedrop', (80, 25), (1500, 80), extra=['--max-steps', '30000']), prof('progs:pipe_lastowner.progs', (0, 100), (0, 2000), extra=['--max-steps', '30000']), prof('progs:pipe_dropinjob.progs', (0, 60), (0, 1500), extra=['--max-steps', '30000'])],
         'monitors': ['C16', 'C12', 'C05'], 'liveness': True, 'panics': True,
         'trusted_base': ['Pipe model (coq/theories/Pipe/Model.v), see C12'],
         'assumptions': ['"released" = poll_fn is None OR nothing references the PipeContext any more (with the drop landing on a throttled producer the input stream and closure are freed by reference counting, never by poll_fn := None; the literal reading is refuted in PropsC16.v)'],
